@@ -777,9 +777,17 @@ def cmd_check(args):
     known_hits = []
     inconclusive = []
     os.makedirs(os.path.join(EVID_DIR, "replays"), exist_ok=True)
+    not_completed = []
     for h in hs:
         res = results[h.name]
         if res.status == "inconclusive":
+            # bounds ladder (DESIGN §2.3): a thorough-only rung that runs out of time or memory is "not completed",
+            # which is neither a pass nor a failure as long as every quick rung is conclusive
+            if tier == "thorough" and h.prop_tier.get(prop, h.tier) == "thorough" and \
+                    re.search(r"time-out|out of memory|CBMC crashed", res.reason):
+                not_completed.append((h.name, res.reason))
+                res.status = "not-completed"
+                continue
             inconclusive.append((h.name, res.reason))
             continue
         if res.status != "fail":
@@ -837,7 +845,7 @@ def cmd_check(args):
 
     # ---------------- evidence
     wall = time.time() - t_start
-    write_evidence(prop, tier, seed, hs, results, glist, violations, known_hits, inconclusive, wall)
+    write_evidence(prop, tier, seed, hs, results, glist, violations, known_hits, inconclusive, wall, not_completed)
 
     for h in hs:
         res = results[h.name]
@@ -849,17 +857,19 @@ def cmd_check(args):
     for hn, f, rpath in violations:
         log("[kv] violated: %s: %s (%s) at %s" % (hn, f["description"], f["category"], f["location"]))
         log("VIOLATION property=%s replay=%s" % (prop, rpath))
+    for hn, why in not_completed:
+        log("NOT-COMPLETED harness=%s %s (thorough rung; neither pass nor failure)" % (hn, " ".join(why.split())[:200]))
     if violations:
         return 1
     if inconclusive:
         for hn, why in inconclusive:
             log("INCONCLUSIVE harness=%s %s" % (hn, " ".join(why.split())[:300]))
         return 2
-    log("[kv] %s: all %d harnesses held within their bounds (%.0fs)" % (prop, len(hs), wall))
+    log("[kv] %s: all %d completed harnesses held within their bounds (%.0fs)" % (prop, len(hs) - len(not_completed), wall))
     return 0
 
 
-def write_evidence(prop, tier, seed, hs, results, glist, violations, known_hits, inconclusive, wall):
+def write_evidence(prop, tier, seed, hs, results, glist, violations, known_hits, inconclusive, wall, not_completed=()):
     per = []
     evaluations = 0
     distinct = set()
@@ -932,6 +942,7 @@ def write_evidence(prop, tier, seed, hs, results, glist, violations, known_hits,
             "engine": "Kani 0.68.0 / CBMC 6.11.0 / CaDiCaL",
             "exhaustive": False,
             "inconclusive": [{"harness": a, "why": b} for a, b in inconclusive],
+            "rungs_not_completed": [{"harness": a, "why": b} for a, b in not_completed],
             "known_findings_hit": [{"id": k.get("id"), "harness": hn, "check": f["description"]}
                                    for k, hn, f in known_hits],
             "build_s": round(sum(g.build_wall for g in glist), 1),
